@@ -10,21 +10,24 @@
      P:status    the error did not reach the client with its own status
      P:offered   the representation chosen is not the one the mapping AT THAT TIME offers for the
                  Accept header (a new type not offered, a removed type still chosen)
-     P:encoder   the body was not encoded by what the chosen type designates at that time
-                 (Content-Type and body disagree, stale handler, body missing)                    *)
+     P:encoder   the body was not encoded by what the chosen type designates at that time BY THE MATCHING RULE
+                 (Content-Type and body disagree, stale handler, body missing, built-in serialization although a
+                 key of the mapping matches the type without being literally equal to it)                    *)
 EXTENDS HandlersError, Json, IOUtils
 
 Traces == JsonDeserialize(IOEnv.TRACE_FILE)
 TJson == MT("a", "x", <<>>)
 TAXml == MT("a", "m", <<>>)
 TTXml == MT("b", "m", <<>>)
+TSufJson == {"w"}
+TSufXml  == {"v"}
 VARIABLES tid, l, verdict
 tvars == <<tid, l, verdict, objs, last, elast, offmemo>>
 T == Traces[tid]
 
 TInit == /\ tid \in 1..Len(Traces) /\ l = 1 /\ verdict = "ok"
          /\ objs = <<[map |-> Traces[tid].init, memo |-> {}]>>
-         /\ last = Rec("init", 0, NOKEY, 0, NOKEY, NOKEY, FALSE, 0, FALSE)
+         /\ last = Rec("init", 0, NOKEY, 0, NOCT, NOKEY, FALSE, 0, FALSE)
          /\ elast = [o |-> 0, hdr |-> <<>>, xml |-> FALSE, ct |-> NOKEY, enc |-> NOBODY]
          /\ offmemo = <<[offered |-> <<>>, xml |-> FALSE]>>
 
@@ -44,7 +47,7 @@ Judge(e) ==
     ELSE LET w == ErrorOutcome(e.map, e.hdr, e.xml) IN
          IF e.status # 400 THEN "P:status"
          ELSE IF w.ct # NOKEY /\ e.ct # w.ct THEN "P:offered"
-         ELSE IF e.enc # w.enc THEN (IF w.ct = NOKEY THEN "P:offered" ELSE "P:encoder")
+         ELSE IF e.enc \notin AdmittedEnc(e.map, w.ct, e.xml) THEN (IF w.ct = NOKEY THEN "P:offered" ELSE "P:encoder")
          ELSE "ok"
 
 Step ==
